@@ -6,6 +6,38 @@ import sys
 import traceback
 
 
+def generic_replay(prop, path):
+    """Show a stored counterexample (what was asked, what the specification expects, what the library did) and, when the
+    bundle carries the bytes of the input file, read those bytes again with the library under test.  Exit 1: the file is
+    a recorded violation (it does not re-decide the property; the check does)."""
+    import io
+    import json
+    with open(path) as fh:
+        doc = json.load(fh)
+    b = doc.get("bundle", doc)
+    print("REPLAY property=%s tier=%s seed=%s" % (doc.get("property", prop), doc.get("tier"), doc.get("seed")))
+    print("signature: %s" % json.dumps(doc.get("signature"), sort_keys=True))
+    for k in sorted(b):
+        if k == "hex":
+            continue
+        v = json.dumps(b[k], sort_keys=True, default=str)
+        print("  %-14s %s" % (k + ":", v if len(v) < 1500 else v[:1500] + " ..."))
+    hx = b.get("hex")
+    if isinstance(hx, str) and hx:
+        from nptdms import TdmsFile
+        from . import proj
+        data = bytes.fromhex(hx)
+        print("  input file:    %d bytes; read again with the library under test:" % len(data))
+        for mode in ("read", "open"):
+            try:
+                f = getattr(TdmsFile, mode)(io.BytesIO(data), raw_timestamps=True)
+                v = json.dumps(proj.project_file(f), sort_keys=True, default=str)
+                print("    %-5s -> %s" % (mode, v if len(v) < 1200 else v[:1200] + " ..."))
+            except Exception as ex:  # noqa
+                print("    %-5s -> %s: %s" % (mode, type(ex).__name__, ex))
+    return 1
+
+
 def main():
     ap = argparse.ArgumentParser()
     ap.add_argument("prop")
@@ -15,7 +47,7 @@ def main():
     mod = importlib.import_module("harness.props.%s" % a.prop.lower())
     try:
         if a.replay:
-            rc = mod.replay(a.replay)
+            rc = mod.replay(a.replay) if hasattr(mod, "replay") else generic_replay(a.prop, a.replay)
         else:
             rc = mod.run(a.tier)
     except Exception:
